@@ -8,7 +8,7 @@ from ..pyutil import resolve_value
 
 META = {
     'title': 'Loading an ILI index only updates ILI status and definitions',
-    'technique': 'write-set of the call-graph closure of _add_ili; shape of the upsert; who-writes-ilis over all SQL sites',
+    'technique': 'write-set of the call-graph closure of _add_ili; shape of the upsert; who-writes-ilis over all SQL sites; name-free source descriptors of the bound rows; field-splitting idiom of _ili.load',
     'explanation': (
         'Write-set argument over the program text, valid for every ILI file and every interleaving: R1 the '
         'statements reachable from _add_ili write only ili_statuses (INSERT OR IGNORE) and ilis; R2 the ilis '
